@@ -19,7 +19,7 @@
 (*   ExecInit / KV block at "down"      RestartLoad (fresh store)          *)
 (*   KV height at "starting"            RestartHeight                      *)
 (*   Restart                            the remaining restart actions      *)
-(*   StepBegin                          Begin                              *)
+(*   StepEnter                          Begin                              *)
 (*   SeqNext nil|err                    FetchNone                          *)
 (*   SeqNext batch|empty                FetchBatchAt (reply bound)         *)
 (*   KV meta (batch cursor)             TsGuard                            *)
@@ -104,7 +104,7 @@ SKV ==
           /\ SetHeight /\ UNCHANGED hm
 
 \* ---------------------------------------------------------------- one production step
-SBegin == Is("StepBegin") /\ Adv /\ Begin /\ UNCHANGED hm
+SBegin == Is("StepEnter") /\ Adv /\ Begin /\ UNCHANGED hm
 
 SSeqNext ==
     /\ Is("SeqNext") /\ Adv /\ UNCHANGED hm
